@@ -238,9 +238,15 @@ def extract (r : K → K) (M : Matrix (Fin 3) (Fin 3) K) : Matrix (Fin 2) (Fin 2
   if 2 * b * d * M 1 0 + (a * d + b * c) * M 1 1 + 2 * a * c * M 1 2 < 0 then !![a, b; -c, -d]
   else !![a, b; c, d]
 
+/-- sign normalisation of the repaired `o_to_pgl`: `A_d` is `±sl2_irrep(A,3)` and the corner
+entries of `sl2_irrep` are squares, so a negative corner sum means the minus sign
+(`O(2,1) → PGL(2)` kills `-1`) -/
+def normSign (M : Matrix (Fin 3) (Fin 3) K) : Matrix (Fin 3) (Fin 3) K :=
+  if M 0 0 + M 0 2 + M 2 0 + M 2 2 < 0 then -M else M
+
 /-- repaired `lie.o_to_pgl(S)` (default form) = `Isometry.to_sl2` -/
 def oToPgl (r : K → K) (S : Matrix (Fin 3) (Fin 3) K) : Matrix (Fin 2) (Fin 2) K :=
-  extract r (oToPglAd S)
+  extract r (normSign (oToPglAd S))
 
 end so21
 
